@@ -917,6 +917,10 @@ class Interp:
                     size = len(x.items) if isinstance(x, ListV) else len(x.v) if isinstance(x, K) and isinstance(x.v, (str, bytes, list, tuple, bytearray)) else None
                     if size is not None and size * y.v > 0:
                         self.allocation(size * y.v, node)
+        if (isinstance(a, K) and type(a.v).__name__ == 'SymBuf') or (isinstance(b, K) and type(b.v).__name__ == 'SymBuf'):
+            # a bytearray with symbolic content in an expression: its value is the byte string it holds at this moment
+            a = a.v.rope.simplify() if isinstance(a, K) and type(a.v).__name__ == 'SymBuf' else a
+            b = b.v.rope.simplify() if isinstance(b, K) and type(b.v).__name__ == 'SymBuf' else b
         if isinstance(a, K) and isinstance(b, K):
             f = _BINOPS.get(t)
             if f:
@@ -1047,6 +1051,8 @@ class Interp:
         return self.getitem(v, i, n)
 
     def getslice(self, v, lo, hi, st, n):
+        if isinstance(v, K) and type(v.v).__name__ == 'SymBuf':
+            return v.v.rope.abs_slice(self, lo, hi, st, n)
         hook = getattr(v, 'abs_slice', None)
         if hook is not None:
             return hook(self, lo, hi, st, n)
@@ -2058,14 +2064,24 @@ class Interp:
                 if not all(isinstance(x, K) and (x.v is None or (isinstance(x.v, int) and not isinstance(x.v, bool))) for x in parts):
                     raise Fail('slice assignment with symbolic bounds')
                 sl = slice(parts[0].v, parts[1].v, parts[2].v)
-                if isinstance(o, K) and isinstance(o.v, bytearray):
-                    if isinstance(v, K) and isinstance(v.v, (bytes, bytearray)):
+                from .rope import SymBuf, MemView, buf_store
+                if isinstance(o, MemView):
+                    if sl.step not in (None, 1):
+                        raise Fail('strided slice assignment into a memoryview')
+                    o.abs_setslice(self, sl.start, sl.stop, v)
+                    return
+                if isinstance(o, K) and isinstance(o.v, (bytearray, SymBuf)):
+                    if isinstance(o.v, bytearray) and isinstance(v, K) and isinstance(v.v, (bytes, bytearray)):
                         try:
                             o.v[sl] = v.v
                         except ValueError as e:
                             raise RaiseEx('ValueError', str(e))
                         return
-                    raise Fail('slice assignment of symbolic bytes into a bytearray')
+                    if sl.step not in (None, 1):
+                        raise Fail('strided slice assignment of symbolic bytes')
+                    a_, b_, _ = slice(sl.start, sl.stop).indices(len(o.v))
+                    buf_store(self, o, a_, max(a_, b_), v)        # the buffer keeps its identity; its content becomes a rope
+                    return
                 if isinstance(o, ListV) and not o.tup:
                     items = self.iterate(v)
                     if items is None:
